@@ -25,9 +25,10 @@ PARTIAL = ['C12_comments_kept_covered_partial: presence of every kept comment is
            'C12_source_level_partial (DESIGN 6/C12 C12_source_level, composed with C02_parse_unparse_partial): documents '
            'of the CORE grammar of C02 (text, groups, macros with mandatory braced arguments, $..$ \\(..\\) \\[..\\], '
            'comments, paragraph breaks) differing only in comment text convert equally for keep_comments=False and '
-           'math_mode text / with-delimiters / remove; not stated: the rest of the document grammar (environments, '
-           'optional arguments, specials, $$..$$) and math_mode=verbatim with comment-free formulas; the tree-level '
-           'non-interference theorems are complete']
+           'math_mode text / with-delimiters / remove; C12_source_level_all_modes_partial: the same for ALL four math modes '
+           '(verbatim included) when the formulas of the two documents are identical (comments inside a formula are '
+           'reproduced with its source in verbatim mode); not stated: the rest of the document grammar (environments, '
+           'optional arguments, specials, $$..$$); the tree-level non-interference theorems are complete']
 REFUTED = []
 CASE_TIMEOUT = 10.0
 
